@@ -180,9 +180,17 @@ def main():
                 line.append("%s:%s(%.0fs)" % (p, tag, r["wall_s"]))
             caught = isinstance(res.get(target), dict) and res[target]["exit"] == 1
             if holds:
-                quiet = all(isinstance(r, dict) and r["exit"] == 0 for r in res.values())
+                # the refactor was written to keep ONE property; the check of that
+                # property must stay silent. Reports by other checks are listed and
+                # judged by hand (e.g. a sync.Pool is mutable package state for C16).
+                kept = m.get("keeps_property")
+                quiet = isinstance(res.get(kept), dict) and res[kept]["exit"] == 0
+                others = [p for p, r in res.items() if p != kept and isinstance(r, dict) and r["exit"] != 0]
                 caught = quiet
-                print("%-8s holds(%s) %s  %s" % (i, m.get("keeps_property"), "SILENT" if quiet else "FALSE-ALARM", " ".join(line)), flush=True)
+                tag = "SILENT" if quiet else "FALSE-ALARM"
+                if quiet and others:
+                    tag = "SILENT(but reported by %s)" % ",".join(others)
+                print("%-8s holds(%s) %s  %s" % (i, kept, tag, " ".join(line)), flush=True)
             else:
                 print("%-8s target=%s %s  %s" % (i, target, "CAUGHT" if caught else "MISSED", " ".join(line)), flush=True)
             for p, r in res.items():
